@@ -24,7 +24,11 @@ func (World) Name() string { return "stream" }
 // obsOpt: accessors documented to expose bytes beyond the certificate's
 // declared length are not part of "the parsed value" for invariant 4 (see
 // DESIGN.md, C03 notes).
-var obsOpt = &obs.Options{Deny: map[string]bool{".RawBytes": true, ".ExcessBytes": true, "KeyCertificate.Data": true}}
+//
+// RouterInfo.String is left out for cost only: it builds its text
+// quadratically, which for a 64 KiB RouterInfo took 80 % of a whole batch; the
+// same content is observed through Bytes() and the accessors.
+var obsOpt = &obs.Options{Deny: map[string]bool{".RawBytes": true, ".ExcessBytes": true, "KeyCertificate.Data": true, "RouterInfo.String": true}}
 
 func streamAdapters() []*adapters.Adapter {
 	var out []*adapters.Adapter
